@@ -231,6 +231,13 @@ func (v *Vue) loadCachedWithFrontMatter(filename string) (map[string]any, []*htm
 	return frontMatter, dom, nil
 }
 
+// forgetTemplate removes filename from the template cache.
+func (v *Vue) forgetTemplate(filename string) {
+	v.templateMu.Lock()
+	delete(v.templateCache, filename)
+	v.templateMu.Unlock()
+}
+
 // Namespaces of v-once IDs. A component's elements are identified by the component's file
 // name; the top-level template of a render and the page's named slots handed to a layout
 // get prefixes that no file name can start with, so the three kinds never collide.
